@@ -131,6 +131,12 @@ def handle (j : J) : Except String J := do
     let ev2s : Ev → String := fun e => match e with | .validate => "validate" | .compile => "compile" | .lookup => "lookup"
     let r2s : PrepR → String := fun e => match e with | .prepared => "prepared" | .permFail => "permFail" | .retry => "retry"
     pure (.obj [("trace", ofStrs (tr.map ev2s)), ("result", .str (r2s r))])
+  | "registry" =>
+    -- {"op":"registry","versions":[apiVersion…]}: a run of ResourceFunction prepares in one process
+    let avs := (← j.getArr "versions").filterMap J.str?
+    let (reg, rs) := prepareApiSeq prepareApi [] avs
+    let r2s : ApiR → String := fun r => match r with | .prepared => "prepared" | .permFail => "permFail" | .raised => "raised"
+    pure (.obj [("results", ofStrs (rs.map r2s)), ("usable", .bool (lookupOk reg))])
   | _ => throw s!"bad op {op}"
 
 end Koreo.Driver.C14
